@@ -61,9 +61,13 @@ Section Generic.
   (* C14: whatever the acceptance script, the bytes accepted are the frames' layouts back to back *)
   Hypothesis H_write : forall fs ks b, Forall frame_ok fs -> wire_write fs ks = Some b -> b = concat (map frame_bytes fs).
   (* C02 + C03: whatever the chunking and the interleaving of arrivals and calls, once the calls have completed
-     the items handed up are the RFC reading of the flat byte string (body pieces up to concatenation) *)
+     the items handed up are the RFC reading of the flat byte string (body pieces up to concatenation) - asked
+     only for streams whose reading has no error item (what happens on malformed streams is C02/C03's subject) *)
   Hypothesis H_read : forall h items s, hist_ok h = true -> rx_run rstate r_arrive r_fin r_poll h r_init = (items, s) ->
-    r_done s = true -> merge_items [] items = stream_outcome (hist_flat h).
+    r_done s = true -> wf_bytes (hist_flat h) -> no_fail (stream_outcome (hist_flat h)) ->
+    merge_items [] items = stream_outcome (hist_flat h).
+  (* the layout of a frame with byte-valued payload consists of bytes *)
+  Hypothesis H_frame_wf : forall f, frame_ok f -> wf_bytes (frame_bytes f).
   (* RFC 9114 7.1 / 4.1: reading back HEADERS DATA* HEADERS? (reserved-type frame)? *)
   Hypothesis H_frames : forall hb pieces tb g,
     block_ok hb -> Forall block_ok pieces -> match tb with Some b => block_ok b | None => True end ->
@@ -138,6 +142,15 @@ Section Generic.
   Qed.
 
   (* ---------- the composition ---------- *)
+  Lemma frames_wf fs : Forall frame_ok fs -> wf_bytes (concat (map frame_bytes fs)).
+  Proof.
+    induction 1 as [|f fs Hf _ IH]; [constructor|]. cbn [map concat]. apply wf_bytes_app. split; [apply H_frame_wf; exact Hf|exact IH].
+  Qed.
+
+  Lemma no_fail_expected hb pieces tb :
+    no_fail (RFirst hb :: flush_items (concat pieces) ++ [RDataEnd; RTrailers tb]).
+  Proof. unfold no_fail. destruct (concat pieces); repeat constructor. Qed.
+
   Theorem e2e_fidelity_generic :
     forall (grease : option N) (m : message H T) (ks : list N) (b : bytes) (h : list hevent) items s,
       head_ok (m_head m) -> Forall block_ok (m_pieces m) ->
@@ -152,8 +165,7 @@ Section Generic.
       = expected_events norm_h norm_t m.
   Proof.
     intros grease m ks b h items s Hh Hp Ht Hg Hw Hok Hflat Hrun Hdone.
-    unfold receiver_outcome. rewrite Hrun. cbn [fst].
-    rewrite merge_commute, (H_read h items s Hok Hrun Hdone), Hflat.
+    unfold receiver_outcome. rewrite Hrun. cbn [fst]. rewrite merge_commute.
     unfold wire, sender_program in Hw.
     destruct (encode_fields encode_section (fields_of_head (m_head m))) as [hb|] eqn:Ehb; [|discriminate].
     apply encode_fields_inv in Ehb. destruct Ehb as (hfs & Ehf & Ehb).
@@ -161,33 +173,35 @@ Section Generic.
     destruct (H_section _ _ Hfok Ehb) as [Hbok Hdec].
     assert (Hfirst : app_ev (RFirst hb) = [AHead (norm_h (m_head m))])
       by (cbn [app_event]; now rewrite Hdec, Hhead).
+    assert (Hfl : flat_map app_ev (flush_items (concat (m_pieces m))) = flush_body (concat (m_pieces m)))
+      by (destruct (concat (m_pieces m)); reflexivity).
     unfold expected_events.
     destruct (m_trailers m) as [t|] eqn:Etr.
     - destruct (encode_fields encode_section (fields_of_trailers t)) as [tb|] eqn:Etb; [|discriminate].
       apply encode_fields_inv in Etb. destruct Etb as (tfs & Etf & Etb).
       destruct (H_trailers _ _ Ht Etf) as [Htok Htrl].
       destruct (H_section _ _ Htok Etb) as [Htbok Htdec].
-      apply H_write in Hw; [|apply (frames_ok hb (m_pieces m) (Some tb) grease); assumption]. subst b.
-      replace (SHeaders hb :: map SData (m_pieces m) ++ SHeaders tb :: match grease with Some g => [SGrease g] | None => [] end)
-        with (SHeaders hb :: map SData (m_pieces m) ++ match Some tb with Some b => [SHeaders b] | None => [] end ++
-              match grease with Some x => [SGrease x] | None => [] end) by reflexivity.
-      rewrite (H_frames hb (m_pieces m) (Some tb) grease Hbok Hp Htbok Hg).
+      pose proof (frames_ok hb (m_pieces m) (Some tb) grease Hbok Hp Htbok Hg) as Hfok2.
+      apply H_write in Hw; [|exact Hfok2]. subst b.
+      pose proof (frames_wf _ Hfok2) as Hwfb. cbv iota beta in Hwfb.
+      pose proof (H_frames hb (m_pieces m) (Some tb) grease Hbok Hp Htbok Hg) as Hfr.
+      cbn [app] in Hfr.
+      rewrite <- Hflat in Hfr, Hwfb.
+      rewrite (H_read h items s Hok Hrun Hdone Hwfb) by (rewrite Hfr; apply no_fail_expected).
+      rewrite Hfr.
       change (flat_map app_ev (RFirst hb :: ?l)) with (app_ev (RFirst hb) ++ flat_map app_ev l).
-      rewrite Hfirst, flat_map_app. cbn [app].
-      assert (Hfl : flat_map app_ev (flush_items (concat (m_pieces m))) = flush_body (concat (m_pieces m)))
-        by (destruct (concat (m_pieces m)); reflexivity).
-      rewrite Hfl. cbn [flat_map app_event app]. rewrite Htdec, Htrl. cbn [app merge_body flush_body].
+      rewrite Hfirst, flat_map_app, Hfl. cbn [flat_map app_event app]. rewrite Htdec, Htrl. cbn [app merge_body flush_body].
       destruct (concat (m_pieces m)); reflexivity.
-    - apply H_write in Hw; [|apply (frames_ok hb (m_pieces m) None grease); [assumption|assumption|exact I|assumption]]. subst b.
-      replace (SHeaders hb :: map SData (m_pieces m) ++ match grease with Some g => [SGrease g] | None => [] end)
-        with (SHeaders hb :: map SData (m_pieces m) ++ match @None bytes with Some b => [SHeaders b] | None => [] end ++
-              match grease with Some x => [SGrease x] | None => [] end) by reflexivity.
-      rewrite (H_frames hb (m_pieces m) None grease Hbok Hp I Hg).
+    - pose proof (frames_ok hb (m_pieces m) None grease Hbok Hp I Hg) as Hfok2.
+      apply H_write in Hw; [|exact Hfok2]. subst b.
+      pose proof (frames_wf _ Hfok2) as Hwfb. cbv iota beta in Hwfb.
+      pose proof (H_frames hb (m_pieces m) None grease Hbok Hp I Hg) as Hfr.
+      cbn [app] in Hfr.
+      rewrite <- Hflat in Hfr, Hwfb.
+      rewrite (H_read h items s Hok Hrun Hdone Hwfb) by (rewrite Hfr; apply no_fail_expected).
+      rewrite Hfr.
       change (flat_map app_ev (RFirst hb :: ?l)) with (app_ev (RFirst hb) ++ flat_map app_ev l).
-      rewrite Hfirst, flat_map_app. cbn [app].
-      assert (Hfl : flat_map app_ev (flush_items (concat (m_pieces m))) = flush_body (concat (m_pieces m)))
-        by (destruct (concat (m_pieces m)); reflexivity).
-      rewrite Hfl. cbn [flat_map app_event app merge_body flush_body].
+      rewrite Hfirst, flat_map_app, Hfl. cbn [flat_map app_event app merge_body flush_body].
       destruct (concat (m_pieces m)); reflexivity.
   Qed.
 End Generic.
